@@ -1,4 +1,5 @@
 import GateModel.Base.Bytes
+import GateModel.Gen.C19
 /-
 C19 — model of
   pkg/edition/java/proxy/server.go      handshakeAddr, backendHandshakeBaseHost, createLegacyForwardingAddress,
@@ -54,9 +55,13 @@ def COLON : UInt8 := 58
 def LBR : UInt8 := 91
 def RBR : UInt8 := 93
 
-/-- index of the last `c`, if any -/
-def lastIndexOf (c : UInt8) (s : Bytes) : Option Nat :=
-  (s.zipIdx.foldl (fun acc (p : UInt8 × Nat) => if p.1 = c then some p.2 else acc) none)
+/-- `strings.LastIndexByte(s, c)`, if any -/
+def lastIndexOf (c : UInt8) : Bytes → Option Nat
+  | [] => none
+  | b :: r =>
+    match lastIndexOf c r with
+    | some i => some (i + 1)
+    | none => if b = c then some 0 else none
 
 def indexOf? (c : UInt8) (s : Bytes) : Option Nat :=
   let i := s.idxOf c
@@ -100,14 +105,30 @@ def hostOf (addr : Bytes) : Bytes :=
 
 def trimDots (s : Bytes) : Bytes := ((s.dropWhile (· = 46)).reverse.dropWhile (· = 46)).reverse
 
+/-- `tcpShieldRealIPSeparator`, regenerated from lite/util.go on every run -/
+def realIPSeparator : Bytes := str Gate.Gen.C19.tcpShieldRealIPSeparator
+
 def clearVirtualHost (name : Bytes) : Bytes :=
-  trimDots (beforeSub (str "///") (beforeNul name))
+  trimDots (beforeSub realIPSeparator (beforeNul name))
 
 /-! ## strconv.Atoi / Itoa as used by ModernToken -/
 
 def isDigit (b : UInt8) : Bool := 48 ≤ b && b ≤ 57
 
-def digitsVal (ds : Bytes) : Nat := ds.foldl (fun acc d => acc * 10 + (d.toNat - 48)) 0
+inductive UintParse where
+  | syntax            -- a non-digit was met before any overflow
+  | range             -- the value left uint64 (reported at the digit where it happens, before later characters are looked at)
+  | val (n : Nat)
+
+/-- the digit loop of `strconv.ParseUint(s, 10, 64)` -/
+def parseUintLoop : Bytes → Nat → UintParse
+  | [], n => .val n
+  | c :: r, n =>
+    if !isDigit c then .syntax
+    else if n ≥ 1844674407370955162 then .range                 -- cutoff = MaxUint64/10 + 1
+    else
+      let n1 := n * 10 + (c.toNat - 48)
+      if n1 > 18446744073709551615 then .range else parseUintLoop r n1
 
 /-- `n, _ := strconv.Atoi(s)`: 0 on a syntax error, the clamped value on a range error -/
 def atoiOrZero (s : Bytes) : Int :=
@@ -115,11 +136,13 @@ def atoiOrZero (s : Bytes) : Int :=
     | 43 :: r => (false, r)
     | 45 :: r => (true, r)
     | _ => (false, s)
-  if ds.isEmpty || !ds.all isDigit then 0
-  else
-    let v := digitsVal ds
-    if neg then (if v > 2 ^ 63 then -(2 ^ 63 : Int) else -(v : Int))
-    else (if v > 2 ^ 63 - 1 then (2 ^ 63 - 1 : Int) else (v : Int))
+  if ds.isEmpty then 0
+  else match parseUintLoop ds 0 with
+    | .syntax => 0
+    | .range => if neg then -(2 ^ 63 : Int) else (2 ^ 63 - 1 : Int)
+    | .val v =>
+      if neg then (if v > 2 ^ 63 then -(2 ^ 63 : Int) else -(v : Int))
+      else (if v > 2 ^ 63 - 1 then (2 ^ 63 - 1 : Int) else (v : Int))
 
 def natDigits : Nat → Nat → Bytes
   | 0, _ => []
@@ -132,9 +155,10 @@ def itoa (i : Int) : Bytes :=
 
 def FML2 : Bytes := str "FML2"
 def FML3 : Bytes := str "FML3"
-def FORGE : Bytes := str "FORGE"
-/-- `forge.HandshakeHostnameToken` = "\x00FML\x00" -/
-def legacyForgeToken : Bytes := [0, 70, 77, 76, 0]
+/-- `modernforge.Token`, regenerated from the source on every run -/
+def FORGE : Bytes := str Gate.Gen.C19.modernForgeToken
+/-- `forge.HandshakeHostnameToken` ("\x00FML\x00"), regenerated from the source on every run -/
+def legacyForgeToken : Bytes := str Gate.Gen.C19.handshakeHostnameToken
 
 /-- the loop of `ModernToken` over the NUL-separated parts -/
 def modernTokenLoop : List Bytes → Int → Except Bytes Int
@@ -171,36 +195,38 @@ structure Property where
 
 def hexLower (n : Nat) : UInt8 := if n < 10 then UInt8.ofNat (48 + n) else UInt8.ofNat (87 + n)
 
-/-- `utf8.DecodeRuneInString` on the head of `s` (`s ≠ []`, head ≥ 0x80): `some (codepoint, size)` for a
-    well-formed sequence, `none` for `(RuneError, 1)`. Go's acceptance ranges. -/
+/-- Go's `first` table of unicode/utf8 for a leading byte ≥ 0x80: `(size, lo, hi)` where `lo..hi` is the
+    accepted range of the FIRST continuation byte (the others must be 0x80..0xBF); `none` = invalid leader -/
+def utf8Lead (x : Nat) : Option (Nat × Nat × Nat) :=
+  if 0xC2 ≤ x ∧ x ≤ 0xDF then some (2, 0x80, 0xBF)
+  else if x = 0xE0 then some (3, 0xA0, 0xBF)
+  else if x = 0xED then some (3, 0x80, 0x9F)
+  else if 0xE1 ≤ x ∧ x ≤ 0xEF then some (3, 0x80, 0xBF)
+  else if x = 0xF0 then some (4, 0x90, 0xBF)
+  else if x = 0xF4 then some (4, 0x80, 0x8F)
+  else if 0xF1 ≤ x ∧ x ≤ 0xF3 then some (4, 0x80, 0xBF)
+  else none
+
+/-- continuation bytes acceptable after a leader with first-continuation range `lo..hi` -/
+def contOk (lo hi : Nat) : Bytes → Bool
+  | [] => false
+  | c1 :: t => decide (lo ≤ c1.toNat) && decide (c1.toNat ≤ hi) &&
+      t.all fun c => decide (0x80 ≤ c.toNat) && decide (c.toNat ≤ 0xBF)
+
+/-- `utf8.DecodeRuneInString` on the head of `s` (head ≥ 0x80): `some (codepoint, size)` for a well-formed
+    sequence, `none` for `(RuneError, 1)` -/
 def decodeRune (s : Bytes) : Option (Nat × Nat) :=
-  let cont (b : UInt8) (lo hi : Nat) : Bool := lo ≤ b.toNat && b.toNat ≤ hi
   match s with
-  | b0 :: rest =>
-    let x := b0.toNat
-    if 0xC2 ≤ x ∧ x ≤ 0xDF then
-      match rest with
-      | b1 :: _ => if cont b1 0x80 0xBF then some ((x - 0xC0) * 64 + (b1.toNat - 0x80), 2) else none
-      | _ => none
-    else if 0xE0 ≤ x ∧ x ≤ 0xEF then
-      let lo := if x = 0xE0 then 0xA0 else 0x80
-      let hi := if x = 0xED then 0x9F else 0xBF
-      match rest with
-      | b1 :: b2 :: _ =>
-        if cont b1 lo hi && cont b2 0x80 0xBF then
-          some ((x - 0xE0) * 4096 + (b1.toNat - 0x80) * 64 + (b2.toNat - 0x80), 3) else none
-      | _ => none
-    else if 0xF0 ≤ x ∧ x ≤ 0xF4 then
-      let lo := if x = 0xF0 then 0x90 else 0x80
-      let hi := if x = 0xF4 then 0x8F else 0xBF
-      match rest with
-      | b1 :: b2 :: b3 :: _ =>
-        if cont b1 lo hi && cont b2 0x80 0xBF && cont b3 0x80 0xBF then
-          some ((x - 0xF0) * 262144 + (b1.toNat - 0x80) * 4096 + (b2.toNat - 0x80) * 64 + (b3.toNat - 0x80), 4)
-        else none
-      | _ => none
-    else none
   | [] => none
+  | b0 :: rest =>
+    match utf8Lead b0.toNat with
+    | none => none
+    | some (size, lo, hi) =>
+      let cs := rest.take (size - 1)
+      if cs.length = size - 1 ∧ contOk lo hi cs then
+        let lead := if size = 2 then 0xC0 else if size = 3 then 0xE0 else 0xF0
+        some (cs.foldl (fun acc c => acc * 64 + (c.toNat - 0x80)) (b0.toNat - lead), size)
+      else none
 
 /-- one ASCII byte as `appendString(…, escapeHTML = true)` writes it -/
 def jsonEscAscii (b : UInt8) : Bytes :=
@@ -289,33 +315,41 @@ def forwardingAddress (e : Env) (withToken : Bool) : Bytes :=
 def createLegacyForwardingAddress (e : Env) : Bytes := forwardingAddress e false
 def createBungeeGuardForwardingAddress (e : Env) : Bytes := forwardingAddress e true
 
+/-- `usedForwarding`: no `HandshakeAddresser` on the server and legacy / bungeeguard mode -/
+def usedForwarding (e : Env) : Bool :=
+  e.hook1.isNone && (decide (e.mode = .legacy) || decide (e.mode = .bungeeguard))
+
+/-- `vHost` after the `switch s.config().Forwarding.Mode` -/
+def forwardedOrHost (e : Env) (vHost : Bytes) : Bytes :=
+  if usedForwarding e then
+    (if e.mode = .legacy then createLegacyForwardingAddress e else createBungeeGuardForwardingAddress e)
+  else vHost
+
+/-- … after `if ha != nil { vHost = ha.HandshakeAddr(vHost, player) }` (this is also `forgeTokenSource`) -/
+def afterHook1 (e : Env) (vHost : Bytes) : Bytes :=
+  match e.hook1 with
+  | some f => f (forwardedOrHost e vHost)
+  | none => forwardedOrHost e vHost
+
+/-- … after the proxy-wide `BackendHandshakeAddresser`, which is given the base host -/
+def afterHook2 (e : Env) (vHost : Bytes) : Except Unit Bytes :=
+  match e.hook2 with
+  | some g => g (backendHandshakeBaseHost (afterHook1 e vHost) e.connType)
+  | none => .ok (afterHook1 e vHost)
+
+/-- the Forge marker handling at the end of `handshakeAddr` -/
+def withForgeMarker (e : Env) (v2 forgeTokenSource : Bytes) : Bytes :=
+  if e.connType = .legacyForge then v2 ++ legacyForgeToken
+  else if e.connType = .modernForge then
+    backendHandshakeBaseHost v2 .modernForge ++ modernToken forgeTokenSource
+  else v2
+
 /-- `(s *serverConnection) handshakeAddr(vHost, player)`; `.error ()` = the backend addresser failed -/
 def handshakeAddr (e : Env) (vHost : Bytes) : Except Unit Bytes :=
-  let usedForwarding := e.hook1.isNone && (e.mode = .legacy || e.mode = .bungeeguard)
-  let v0 :=
-    match e.hook1 with
-    | some _ => vHost
-    | none =>
-      match e.mode with
-      | .legacy => createLegacyForwardingAddress e
-      | .bungeeguard => createBungeeGuardForwardingAddress e
-      | _ => vHost
-  let v1 := match e.hook1 with
-    | some f => f v0
-    | none => v0
-  let forgeTokenSource := v1
-  if usedForwarding then .ok v1
-  else
-    let r2 : Except Unit Bytes := match e.hook2 with
-      | some g => g (backendHandshakeBaseHost v1 e.connType)
-      | none => .ok v1
-    match r2 with
+  if usedForwarding e then .ok (afterHook1 e vHost)
+  else match afterHook2 e vHost with
     | .error () => .error ()
-    | .ok v2 =>
-      if e.connType = .legacyForge then .ok (v2 ++ legacyForgeToken)
-      else if e.connType = .modernForge then
-        .ok (backendHandshakeBaseHost v2 .modernForge ++ modernToken forgeTokenSource)
-      else .ok v2
+    | .ok v2 => .ok (withForgeMarker e v2 (afterHook1 e vHost))
 
 /-- the virtual host `startHandshake` starts from -/
 def playerVHost (e : Env) : Bytes :=
